@@ -514,7 +514,7 @@ CONDITIONS = [
                               "thorough": ["cfg == %d and where == %d and src == 0 and vk %s" % (c, wh, r) for c in range(10) for wh in range(3) for r in ("<= 10", "in (11,12,13,14,15,16)", "in (17,18,19)", "in (20,21,22)", ">= 23")] +
                                           ["cfg == %d and src == %d and vk == 0 and where == 0" % (c, s) for c in (6, 7) for s in (1, 2)]},
          twins=["reach", "mutant:returns_none_on_error@cfg == 0 and where == 0 and src == 0 and vk in (0, 8, 12, 16, 17, 19, 20, 22, 29, 31, 33)"],
-         timeout={"quick": 240, "thorough": 900},
+         timeout={"quick": 420, "thorough": 900},
          bounds="10 tracepoint configurations (snapshot+condition+watches, log, metric, line span, method span, method capture, unnamed method stage, span:method "
                 "without name, two tracepoints on a line, all actions) x a script of 3-4 events x 10 (thorough 33) value kinds in the locals / as return value / as exception "
                 "argument x 6 exception classes for hostile dunder methods and failing expressions; source lookup raising OSError or answering"),
